@@ -78,7 +78,7 @@ Section Proofs.
     unfold handle_timeout. destruct (incs s) eqn:Hcs.
     - pose proof (set_timer_frame reschedule_time s) as F. cbv zeta in F.
       destruct F as (F1 & F2 & F3 & F4 & F5 & F6 & F7 & F8 & F9 & F10 & _).
-      cbv zeta. rewrite F1, F2, F3, F4, F5, F6, F7, F8, F9, F10. repeat (split; [first [reflexivity|assumption]|]).
+      cbv zeta. cbn [pending expired log pc incs now next_id alive dead created set_ltr]. rewrite F1, F2, F3, F4, F5, F6, F7, F8, F9, F10. repeat (split; [first [reflexivity|assumption]|]).
       exists []. simpl. auto.
     - cbv zeta. destruct (pending s) as [|e r] eqn:Hp.
       + simpl. repeat (split; [first [reflexivity|assumption]|]). exists []. simpl. rewrite Hp. repeat split; auto; discriminate.
